@@ -3,10 +3,21 @@
 For order n with matching order n-1, the evolution across one heavy-quark threshold is solved
 through the real runner (moment probe: exact Mellin moments, flavour space) with the matching
 ratio k in {1/2, 0.7, 1.4, 2} and with k = 1; the coupling is scaled through
-alpha_s(ref) = 0.35 lambda, lambda = 2^-3 .. 2^-8. The residual R(lambda) = max |E_k - E_1| per
-channel class must vanish at least like a_s^n (asymptotic-window rule, vf.core.scaling).
-Channel classes: light inputs (gluon, light quarks), and the intrinsic heavy-quark input columns.
+alpha_s(ref) = 0.35 lambda, lambda = 2^-3 .. 2^-8. The difference D(lambda) = E_k - E_1 must vanish at
+least like a_s^n in EVERY flavour channel. It is judged per block (output block x input block) of the
+flavour-space matrix: outputs {g, light quarks q, heavy quark h, non-singlet combinations ns} x inputs
+{g, q, h} (+ the rows/columns that take no part: photon, heavier quarks), by two oracles:
+  * exponents: local exponents of the ladder max|D| of the block (asymptotic-window rule, vf.core.scaling);
+  * extrapolation: D / a^(n-1), a = alpha_s(ref)/4pi, of every element of the block, extrapolated to a -> 0 through
+    the last EXTRAP_POINTS ladder points (polynomial in lambda): this is the coefficient of a^(n-1) in D and has to
+    vanish (a small O(a_s^(n-1)) contamination bends the exponents only slowly, but is the constant term of this
+    extrapolation; matching elements have coefficients of order 0.1-10, the genuine findings show >= 0.1).
+Blocks that are recorded as known findings carry a pinned exponent e0 < n: they keep the listed signature only while
+they vanish like a_s^e0 (no term a^(e0-1), a term a^e0 of the recorded size); any other failure of such a block has the
+suffix /beyond-known.
 """
+
+import math
 
 import numpy as np
 
@@ -15,12 +26,17 @@ from vf.core.ctx import Result
 
 ID = "C50"
 LEVEL = "exploration"
-TECHNIQUE = "exhaustive enumeration of (order, kind, direction, ratio, method) through the real runner at the moment seam; scaling-exponent oracle per channel class"
+TECHNIQUE = "exhaustive enumeration of (order, kind, direction, ratio, method, side of the reference coupling) through the real runner at the moment seam; scaling-exponent and zero-coupling-extrapolation oracles per (output block, input block)"
 LEVEL_TEXT = (
     "every combination of order 1-3 x unpolarised/polarised/time-like x upward/downward crossing x 4 matching ratios is solved on a "
-    "6-step coupling ladder; the matching-scale dependence of every flavour channel must vanish like a_s^n"
+    "6-step coupling ladder; the matching-scale dependence of every block {g, q, h, ns} x {g, q, h} of the flavour-space operator must "
+    "vanish like a_s^n (exponent rule, and D/a_s^(n-1) extrapolated to zero coupling must vanish); the reference coupling is given above the "
+    "threshold and, for the unpolarised orders 2 and 3, also below it"
 )
-LEVEL_NOTE = "moment seam (N = 2, 3.5, 6); charm threshold only in quick (bottom added in thorough); POLE masses; lambda ladder 2^-3..2^-8"
+LEVEL_NOTE = (
+    "moment seam (N = 2, 3.5, 6); charm threshold only in quick (bottom, and charm+bottom on one path, added in thorough); POLE masses; "
+    "lambda ladder 2^-3..2^-8; blocks recorded as known findings are only checked against their recorded exponent"
+)
 FLOOR_NONTRIVIAL = 10
 
 MOMENTS = [2.0, 3.5, 6.0]
@@ -28,18 +44,62 @@ PID = probe.FLAVOR_PIDS
 LAMBDAS = [2.0**-i for i in range(3, 9)]
 KINDS = {"unpol": {}, "pol": dict(polarized=True), "tl": dict(time_like=True)}
 RATIOS = [0.5, 0.7, 1.4, 2.0]
+FLOOR = 1e-13
+# extrapolation oracle
+EXTRAP_POINTS = 5
+EXTRAP_TOL = 2e-4
+A0 = 0.35 / (4 * math.pi)  # a_s = alpha_s / 4 pi at the reference scale for lambda = 1
+# pinned exponent e0 of a known finding: no term a^(e0-1) (EXTRAP_TOL) and a term a^e0 with a coefficient of at least
+PIN_MIN = 1e-2
+
+_INTR = "intrinsic"
+_AHG = "A_Hg2"
+_TL = "tl-nnlo"
+_INTR_G = "intrinsic-radiated"
+
+
+def _known_table():
+    """{(kind, n, direction, out, in): (recorded exponent, cause)} of the blocks that are known not to scale like a_s^n."""
+    t = {}
+    for d in ("up", "down"):
+        # O(a_s^2) matching elements of the intrinsic column are not implemented
+        for o in ("g", "q", "h", "ns"):
+            t[("unpol", 3, d, o, "h")] = (2, _INTR)
+        # no matching elements at all for an intrinsic heavy quark (polarised, time-like): O(a_s); the light-quark rows only at O(a_s^2)
+        for kind in ("pol", "tl"):
+            for n in (2, 3):
+                for o in ("g", "h", "ns"):
+                    t[(kind, n, d, o, "h")] = (1, _INTR)
+            t[(kind, 3, d, "q", "h")] = (2, _INTR)
+        # polarised A_Hg^(2): single-log coefficient twice the RG value
+        t[("pol", 3, d, "h", "g")] = (2, _AHG)
+        # time-like O(a_s^2) matching unknown, set to zero
+        for o, i in (("g", "g"), ("g", "q"), ("q", "q"), ("h", "g"), ("h", "q"), ("ns", "q")):
+            t[("tl", 3, d, o, i)] = (2, _TL)
+    # downward: the heavy quark radiated off a gluon above the threshold meets the missing polarised intrinsic elements
+    t[("pol", 3, "down", "g", "g")] = (2, _INTR_G)
+    return t
+
+
+KNOWN = _known_table()
 
 
 def _cfg(case, k, lam):
     hq = case.get("hq", 4)
+    below = case.get("ref_side", "above") == "below"  # side of the crossed threshold(s) on which alpha_s is fixed
     if hq == 4:
         masses, ratios = [2.0, 50.0, 500.0], [k, "inf", "inf"]
-        lo, hi, nlo = [0.8, 3], [8.0, 4], 3
-        ref = [10.0, 4]
-    else:
+        lo, hi = [0.8, 3], [8.0, 4]
+        ref = [0.9, 3] if below else [10.0, 4]
+    elif hq == 5:
         masses, ratios = [0.3, 5.0, 500.0], [1.0, k, "inf"]
-        lo, hi, nlo = [2.0, 4], [20.0, 5], 4
-        ref = [30.0, 5]
+        lo, hi = [2.0, 4], [20.0, 5]
+        ref = [2.2, 4] if below else [30.0, 5]
+    else:
+        # hq == 45: charm and bottom crossed on one path with different ratios (k and 1/k); pins the indexing of the ratios
+        masses, ratios = [1.0, 8.0, 500.0], [k, 1.0 / k, "inf"]
+        lo, hi = [0.4, 3], [20.0, 5]
+        ref = [0.45, 3] if below else [30.0, 5]
     up = case["direction"] == "up"
     c = dict(
         order=[case["n"], 0],
@@ -64,47 +124,149 @@ def _solve(case, k, lam):
     return m
 
 
+def _neville0(xs, ys):
+    """Value at 0 of the polynomial through (xs[i], ys[i]); ys are arrays."""
+    P = [np.asarray(y, dtype=float) for y in ys]
+    m = len(xs)
+    for lev in range(1, m):
+        P = [(xs[i + lev] * P[i] - xs[i] * P[i + 1]) / (xs[i + lev] - xs[i]) for i in range(m - lev)]
+    return P[0]
+
+
+def _coefficient(arr, m):
+    """Largest |coefficient of a^m| over the elements arr[ladder step, element], a = alpha_s(ref) / 4 pi: D / a^m extrapolated to a = 0."""
+    lam = np.array(LAMBDAS)
+    f = arr / (A0 * lam[:, None]) ** m
+    f0 = _neville0(list(lam[-EXTRAP_POINTS:]), [f[j] for j in range(len(lam) - EXTRAP_POINTS, len(lam))])
+    return float(np.abs(f0).max())
+
+
+def _blocks(D, hq):
+    """Split D[ladder step, moment, out, in] into {(out, in): array[ladder step, elements]}."""
+    heavy = (4, 5) if hq == 45 else (hq,)
+    ix = PID.index
+    sel = {
+        "g": [ix(21)],
+        "q": [i for i, p in enumerate(PID) if p not in (21, 22) and abs(p) < min(heavy)],
+        "h": [i for i, p in enumerate(PID) if abs(p) in heavy],
+    }
+    nl = len(D)
+    out = {}
+    for o in "gqh":
+        for i in "gqh":
+            out[(o, i)] = D[:, :, sel[o]][:, :, :, sel[i]].reshape(nl, -1)
+    u, ub, d, db, g = ix(2), ix(-2), ix(1), ix(-1), ix(21)
+    # non-singlet combinations: valence-like q - qbar and the flavour difference (u + ubar) - (d + dbar), fed by a u quark / a gluon
+    out[("ns", "q")] = np.concatenate([D[:, :, u, u] - D[:, :, ub, u], D[:, :, u, u] + D[:, :, ub, u] - D[:, :, d, u] - D[:, :, db, u]], axis=1)
+    out[("ns", "g")] = np.concatenate([D[:, :, u, g] - D[:, :, ub, g], D[:, :, u, g] + D[:, :, ub, g] - D[:, :, d, g] - D[:, :, db, g]], axis=1)
+    # heavy valence h - hbar fed by the heavy quark
+    out[("ns", "h")] = np.concatenate([D[:, :, ix(q), ix(q)] - D[:, :, ix(-q), ix(q)] for q in heavy], axis=1)
+    rest = [i for i in range(len(PID)) if i not in sel["g"] + sel["q"] + sel["h"]]
+    out[("other", "any")] = np.concatenate([D[:, :, rest, :].reshape(nl, -1), D[:, :, :, rest].reshape(nl, -1)], axis=1)
+    return out
+
+
+def _decide(case, D, res):
+    """All oracles on the difference D[ladder step, moment, out, in] = E_k - E_1."""
+    n = case["n"]
+    hq = case.get("hq", 4)
+    kind, direction = case["kind"], case["direction"]
+    where = (
+        f"n={n} kind={kind} direction={direction} ratio={case['ratio']} hq={hq} method={case.get('method', 'truncated')} "
+        f"inversion={case.get('inversion', 'expanded')} ref_side={case.get('ref_side', 'above')}"
+    )
+    detail = {}
+    classes = {"light": None, "intrinsic": None}
+    deficit = extrap = pin_below = pin_at_inv = 0.0
+    n_known = n_decided = 0
+    anything = False
+    for (o, i), arr in _blocks(D, hq).items():
+        rr = [float(np.abs(a).max()) for a in arr]
+        if any(not math.isfinite(r) for r in rr):
+            res.fail(f"exponent/{kind}/n={n}/{direction}/out={o}/in={i}/non-finite", f"{where} block {o}<-{i}: non-finite difference {rr}")
+            continue
+        if max(rr) > FLOOR:
+            anything = True
+        ok, inf = scaling.judge(rr, n, floor=FLOOR)
+        usable = [e for e in scaling.local_exponents(rr, FLOOR) if e is not None]
+        reasons = [] if ok else [inf.get("reason", "exponent rule")]
+        # extrapolation of D / a^(n-1) to zero coupling: the coefficient of a^(n-1), a = alpha_s(ref) / 4 pi, of every element
+        stat = _coefficient(arr, n - 1)
+        inf["coefficient_of_a^(n-1)"] = float(f"{stat:.3e}")
+        if not stat <= EXTRAP_TOL:
+            reasons.append(f"the difference has a term a_s^{n - 1} with coefficient {stat:.3g} (extrapolation of D/a^{n - 1} to a = 0; tolerance {EXTRAP_TOL})")
+        rich = 2 * usable[-1] - usable[-2] if len(usable) >= 2 else None
+        known = KNOWN.get((kind, n, direction, o, i))
+        if known is None and o in "gqh" and i in "gqh":
+            cls = "intrinsic" if i == "h" else "light"
+            classes[cls] = rr if classes[cls] is None else [max(a, b) for a, b in zip(classes[cls], rr)]
+        if max(rr) > FLOOR or reasons:
+            detail[f"{o}<-{i}"] = inf
+        if not reasons:
+            n_decided += 1
+            if usable and rr[-1] > 100 * FLOOR:
+                deficit = max(deficit, n - usable[-1])
+            extrap = max(extrap, stat)
+            continue
+        sig = f"exponent/{kind}/n={n}/{direction}/out={o}/in={i}"
+        if known is not None:
+            # the recorded wrong behaviour: the block vanishes like a_s^e0 with the recorded e0 < n, nothing worse, nothing else:
+            # no term a^(e0-1) (same rule as above, one or two orders lower) and a term a^e0 of the recorded size (>= 0.1 measured)
+            n_known += 1
+            e0 = known[0]
+            below, at = _coefficient(arr, e0 - 1), _coefficient(arr, e0)
+            inf["pin"] = {"recorded_exponent": e0, "coefficient_of_a^(e0-1)": float(f"{below:.3e}"), "coefficient_of_a^e0": float(f"{at:.3e}"), "richardson_exponent": None if rich is None else round(rich, 4)}
+            if not below <= EXTRAP_TOL or not at >= PIN_MIN:
+                sig += "/beyond-known"
+                reasons.append(
+                    f"known finding ({known[1]}) recorded as vanishing like a_s^{e0}: coefficient of a_s^{e0 - 1} is {below:.3g} (must be <= {EXTRAP_TOL}), "
+                    f"coefficient of a_s^{e0} is {at:.3g} (must be >= {PIN_MIN})"
+                )
+            else:
+                pin_below = max(pin_below, below)
+                pin_at_inv = max(pin_at_inv, 1.0 / at)
+        res.fail(sig, f"{where} block {o}<-{i}: dependence on the matching ratio does not vanish like a_s^{n}: {'; '.join(reasons)}: {inf}")
+    # the former rule on whole input classes (all outputs x light inputs / x heavy-quark inputs), on the blocks that are not known findings
+    for cls, rr in classes.items():
+        if rr is None:
+            continue
+        ok, inf = scaling.judge(rr, n, floor=FLOOR)
+        if not ok:
+            res.fail(f"exponent/{kind}/n={n}/{direction}/class={cls}", f"{where} class {cls} (without the blocks recorded as known findings): dependence on the matching ratio does not vanish like a_s^{n}: {inf}")
+    res.info = {
+        "max_deficit_last_exponent": max(0.0, deficit),
+        "max_coefficient_below_order": extrap,
+        "max_known_coefficient_below_recorded_order": pin_below,
+        "max_known_inverse_coefficient_at_recorded_order": pin_at_inv,
+        "blocks_decided": n_decided,
+        "blocks_known_failing": n_known,
+        "detail": detail,
+    }
+    res.outcome = f"{kind}:n={n}:{direction}:{'depends' if anything else 'independent'}"
+    res.nontrivial = anything
+    return res
+
+
 def evaluate(case):
     res = Result()
     n = case["n"]
-    hq = case.get("hq", 4)
-    where = f"n={n} kind={case['kind']} direction={case['direction']} ratio={case['ratio']} hq={hq} method={case.get('method', 'truncated')} inversion={case.get('inversion', 'expanded')}"
-    heavy_cols = [PID.index(hq), PID.index(-hq)]
-    light_cols = [i for i, p in enumerate(PID) if abs(p) < hq or p == 21]
-    resid = {"light": [], "intrinsic": []}
+    D = []
     try:
         for lam in LAMBDAS:
             c = _solve(case, 1.0, lam)
             v = _solve(case, case["ratio"], lam)
-            d = np.abs(c - v)  # [moment, out, in]
-            resid["light"].append(float(d[:, :, light_cols].max()))
-            resid["intrinsic"].append(float(d[:, :, heavy_cols].max()))
+            D.append(v - c)  # [moment, out, in]
     except (NotImplementedError, ValueError) as e:
         res.outcome = f"refused:{str(e)[:40]}"
         res.nontrivial = False
         return res
     except Exception as e:  # noqa
-        res.fail(f"solve/crash/{type(e).__name__}/{case['kind']}/n={n}", f"{where}: {type(e).__name__}: {str(e)[:200]}")
+        res.fail(f"solve/crash/{type(e).__name__}/{case['kind']}/n={n}", f"case={case}: {type(e).__name__}: {str(e)[:200]}")
         return res
-    info = {}
-    for cls, rr in resid.items():
-        ok, inf = scaling.judge(rr, n, floor=1e-13)
-        info[cls] = inf
-        if "last_two" in inf:
-            info[f"max_deficit_{cls}"] = max(0.0, n - min(inf["last_two"]))
-        if not ok:
-            res.fail(
-                f"exponent/{case['kind']}/n={n}/{case['direction']}/class={cls}",
-                f"{where} class {cls}: dependence on the matching ratio does not vanish like a_s^{n}: {inf}",
-            )
-    res.info = {"max_deficit_light": info.get("max_deficit_light", 0.0), "detail": info}
-    allzero = all(r <= 1e-13 for rr in resid.values() for r in rr)
-    res.outcome = f"{case['kind']}:n={n}:{case['direction']}:{'independent' if allzero else 'depends'}"
-    res.nontrivial = not allzero
-    return res
+    return _decide(case, np.stack(D), res)
 
 
-def run(ctx):
+def _cases(thorough):
     cases = []
     for kind in KINDS:
         for n in (1, 2, 3):
@@ -116,7 +278,15 @@ def run(ctx):
         for n in (2, 3):
             cases.append(dict(kind=kind, n=n, direction="down", ratio=2.0, inversion="exact"))
             cases.append(dict(kind=kind, n=n, direction="up", ratio=0.5, method="iterate-exact"))
-    if ctx.thorough():
+    # the iterated method downward (exact coupling running, decoupling with L != 0, backward matching)
+    for n in (2, 3):
+        cases.append(dict(kind="unpol", n=n, direction="down", ratio=2.0, method="iterate-exact"))
+    # reference coupling fixed BELOW the crossed threshold: the coupling itself is matched upward with L != 0
+    for n in (2, 3):
+        for direction in ("up", "down"):
+            for ratio in (0.5, 2.0):
+                cases.append(dict(kind="unpol", n=n, direction=direction, ratio=ratio, ref_side="below"))
+    if thorough:
         for kind in KINDS:
             for n in (1, 2, 3):
                 for direction in ("up", "down"):
@@ -125,19 +295,46 @@ def run(ctx):
                 for ratio in RATIOS:
                     cases.append(dict(kind=kind, n=n, direction="down", ratio=ratio, inversion="exact"))
                     cases.append(dict(kind=kind, n=n, direction="up", ratio=ratio, method="iterate-exact"))
+                for direction in ("up", "down"):
+                    for ratio in (0.5, 2.0):
+                        cases.append(dict(kind=kind, n=n, direction=direction, ratio=ratio, ref_side="below"))
+            for n in (2, 3):
+                for ratio in (0.5, 2.0):
+                    cases.append(dict(kind=kind, n=n, direction="down", ratio=ratio, method="iterate-exact"))
+        # charm and bottom on one path with ratios k and 1/k (beyond "one threshold": pins which ratio belongs to which quark)
+        for n in (2, 3):
+            for direction in ("up", "down"):
+                for ratio in (0.5, 2.0):
+                    for side in ("above", "below"):
+                        cases.append(dict(kind="unpol", n=n, direction=direction, ratio=ratio, hq=45, ref_side=side))
     seen, uniq = set(), []
     for c in cases:
+        if c.get("ref_side") == "above":
+            c = {k: v for k, v in c.items() if k != "ref_side"}
         key = repr(sorted(c.items()))
         if key not in seen:
             seen.add(key)
             uniq.append(c)
-    ctx.run_cases(uniq, evaluate, chunksize=1)
+    return uniq
+
+
+def run(ctx):
+    ctx.run_cases(_cases(ctx.thorough()), evaluate, chunksize=1)
     ctx.rule = (
         "order n = 1-3 (matching order n-1) x unpolarised/polarised/time-like x up/down across the charm"
         + (" and bottom" if ctx.thorough() else "")
-        + " threshold x matching ratio in {0.5, 0.7, 1.4, 2} vs 1, + exact inversion and iterate-exact variants; each case = its 6-step "
-        "coupling ladder; channel classes: light inputs, intrinsic heavy-quark inputs; non-trivial = the operator depends on the ratio at all"
+        + " threshold x matching ratio in {0.5, 0.7, 1.4, 2} vs 1, + exact inversion and iterate-exact (up and down) variants, + the reference "
+        "coupling given below the threshold (unpolarised n = 2, 3, ratios 0.5 and 2"
+        + ("; thorough: every kind and order; charm and bottom on one path with ratios k and 1/k" if ctx.thorough() else "")
+        + "); each case = its 6-step coupling ladder; every case is decided per block of the flavour-space operator: outputs {g, light "
+        "quarks, heavy quark, non-singlet combinations} x inputs {g, light quark, heavy quark} + the spectator rows/columns; "
+        "non-trivial = the operator depends on the ratio at all"
     )
     ctx.assumptions += [
         "asymptotic-window rule: fails only if the last two local exponents are both below n-0.25 and agree to 0.15 (or are a full unit short)",
+        f"extrapolation rule: the polynomial through the last {EXTRAP_POINTS} ladder points of D/a^(n-1) (a = alpha_s(ref)/4pi) at a = 0 must be below {EXTRAP_TOL} in "
+        "every element (the difference is analytic in the coupling at fixed scales)",
+        f"blocks listed as known findings keep their signature only while they vanish like a^e0 with the recorded exponent e0: coefficient of a^(e0-1) below {EXTRAP_TOL} "
+        f"and coefficient of a^e0 at least {PIN_MIN} (otherwise .../beyond-known); they are counted (blocks_known_failing) and excluded from the measured maxima of "
+        "the deciding rules (max_deficit_last_exponent, max_coefficient_below_order)",
     ]
